@@ -402,6 +402,27 @@ pub const SELF_SIMILAR: &[&str] = &[
     "public.kern1.@MMK_L_", "public.kern2.@MMK_R_",
 ];
 
+/// near-prefix names: every cut of `public.kern1.` / `public.kern2.` at byte 10..13 (and the whole prefix plus one or
+/// two ASCII letters: offsets 14, 15) followed by a 2-, 3- and 4-byte character, with and without a tail.  A cut
+/// before byte 13 gives an ordinary (non-kerning) group, the whole prefix a kerning group with a non-ASCII name:
+/// all of them are valid, and the multi-byte character straddles every byte offset a byte-indexed split could use.
+pub fn near_prefix_names() -> Vec<String> {
+    let mut v = Vec::new();
+    for p in ["public.kern1.", "public.kern2."] {
+        for cut in 10..=15usize {
+            let head: String = if cut <= 13 { p[..cut].to_string() } else { format!("{}{}", p, &"ab"[..cut - 13]) };
+            for ch in ["\u{e9}", "\u{20ac}", "\u{1f600}"] {
+                for tail in ["", "1.x", "."] {
+                    v.push(format!("{}{}{}", head, ch, tail));
+                }
+            }
+        }
+    }
+    v.sort();
+    v.dedup();
+    v
+}
+
 /// the small pool of the exhaustive tier and of most random cases
 pub const SMALL_POOL: &[&str] = &["A", "@MMK_L_A", "@MMK_L_@MMK_L_A", "public.kern1.A", "@MMK_R_A", "public.kern2.A"];
 
@@ -634,11 +655,35 @@ pub fn gen(tier: &str, seed: u64, out: &mut dyn Write) {
             writeln!(out, "{} => {}", c.tokens(), obs).unwrap();
         }
     }
+    let near = near_prefix_names();
+    // every near-prefix name: all save entry points, a format-3 load under every request shape, a legacy load
+    // in which it is referenced on both sides (shapes in rotation); members overlap with a real kerning group so
+    // that taking it for one (or not) changes the verdict
+    for (i, name) in near_prefix_names().iter().enumerate() {
+        let mut g = Groups::new();
+        g.insert(name.clone(), vec!["a".to_string(), "b".to_string()]);
+        let side = if name.starts_with("public.kern2") { "public.kern2.Z" } else { "public.kern1.Z" };
+        g.insert(side.to_string(), vec![if i % 2 == 0 { "a" } else { "c" }.to_string()]);
+        emit_save(out, &g, &dir);
+        let mut k = Kerning::new();
+        k.entry(name.clone()).or_default().insert(name.clone(), 3.0);
+        let c3 = Case { fmt: 3, groups: Some(g.clone()), kerning: Some(k.clone()), glyphs: BTreeSet::new(), extra: BTreeSet::new() };
+        let obs = observe_load_shapes(&c3, &dir, true, true);
+        writeln!(out, "{} => {}", c3.tokens(), obs).unwrap();
+        let c1 = Case { fmt: 1 + (i % 2) as u32, groups: Some(g), kerning: Some(k), glyphs: BTreeSet::new(), extra: BTreeSet::new() };
+        emit_load(out, &c1, &dir);
+    }
     for _ in 0..vn {
         let mut g = Groups::new();
         let ng = 1 + rng.below(4);
         for _ in 0..ng {
-            let name = if rng.chance(1, 5) { rng.pick(SELF_SIMILAR).to_string() } else { rng.pick(VPOOL).to_string() };
+            let name = if rng.chance(1, 5) {
+                rng.pick(SELF_SIMILAR).to_string()
+            } else if rng.chance(1, 8) {
+                rng.pick(&near).clone()
+            } else {
+                rng.pick(VPOOL).to_string()
+            };
             let nm = rng.below(4);
             let ms: Vec<String> = (0..nm).map(|_| rng.pick(&["a", "b", "c", "d", "e", "f", "g"]).to_string()).collect();
             g.insert(name, ms);
